@@ -70,9 +70,137 @@ def reduce_trig(p: nf.Poly, cos_id: int, sin_id: int) -> nf.Poly:
     return p
 
 
+def _fold(e, env):
+    """Constant folding of a boolean expression over string comparisons (no code of the repository is executed)."""
+    if isinstance(e, ast.Constant):
+        return e.value
+    if isinstance(e, ast.Name):
+        return env.get(e.id)
+    if isinstance(e, (ast.Tuple, ast.List, ast.Set)):
+        return [_fold(x, env) for x in e.elts]
+    if isinstance(e, ast.UnaryOp) and isinstance(e.op, ast.Not):
+        v = _fold(e.operand, env)
+        return None if v is None else (not v)
+    if isinstance(e, ast.BoolOp):
+        vs = [_fold(x, env) for x in e.values]
+        if any(v is None for v in vs):
+            return None
+        return all(vs) if isinstance(e.op, ast.And) else any(vs)
+    if isinstance(e, ast.Compare) and len(e.ops) == 1:
+        a, b = _fold(e.left, env), _fold(e.comparators[0], env)
+        if a is None or b is None:
+            return None
+        op = e.ops[0]
+        if isinstance(op, ast.Eq):
+            return a == b
+        if isinstance(op, ast.NotEq):
+            return a != b
+        if isinstance(op, ast.In):
+            return a in b
+        if isinstance(op, ast.NotIn):
+            return a not in b
+    return None
+
+
+def best_of_all_rollouts(ctx: Ctx):
+    """C15.j / C15.k the value logged as an instance's best reward is the maximum over ALL its rollouts.
+    j) POMO / SymNCO `shared_step` regroup the rewards as R = unbatchify(reward, (f1, f2)) = [batch, f1, f2].  With multi-start
+       AND augmentation on, `max_aug_reward` must have reduced BOTH replica axes of R by a maximum (first the start axis into
+       `max_reward`, then the augmentation axis), and `max_reward` exactly the start axis -- computed by following max / amax /
+       conditional nodes from the logged value back to R and collecting the axes removed (in R's numbering).
+    k) REINFORCE.shared_step asks the policy for best-selection in every phase but training: the `select_best` argument,
+       evaluated over phase in {train, val, test}, is (False, True, True).  And the decoding strategy applies the selection
+       whenever more than one rollout per instance exists (C12.f, shared)."""
+    for path, cn in (("rl4co/models/zoo/symnco/model.py", "SymNCO"), ("rl4co/models/zoo/pomo/model.py", "POMO")):
+        cls = ctx.repo.get_class(path, cn)
+        fi = cls.methods.get("shared_step")
+        if fi is None:
+            raise AnalysisError(f"{cn}.shared_step not found")
+        ctx.fn(fi)
+        it = vg.Interp(ctx.repo, cls, inline_policy=lambda f, a: False)
+        it.run_function(fi)
+        vals = {}
+        for e in it.events:
+            if e.kind == "methcall" and e.data[1] == "update" and e.data[2] and isinstance(e.data[2][0], vg.S) and e.data[2][0].op == "dict":
+                if any("phase == 'train'" in vg.show(c, 3) and not vg.show(c, 3).startswith("not") for c in e.conds):
+                    continue
+                for item in e.data[2][0].args:
+                    if item.op == "item" and item.args[0].op == "const" and item.args[0].args[0] in ("max_aug_reward", "max_reward"):
+                        vals[item.args[0].args[0]] = item.args[1]
+        if set(vals) != {"max_aug_reward", "max_reward"}:
+            raise AnalysisError(f"{cn}.shared_step: logged max_reward / max_aug_reward not found ({sorted(vals)})")
+
+        def back(n, depth=0):
+            """-> (R, [axes of R still present]) under the assumption n_start > 1 and n_aug > 1, or None"""
+            if depth > 40 or not isinstance(n, vg.S):
+                return None
+            n = nf.strip(n)
+            if (nf._fn(n) or "").endswith(":unbatchify"):
+                shp = n.args[2] if len(n.args) > 2 else None
+                k = len(shp.args) if isinstance(shp, vg.S) and shp.op == "tuple" else None
+                return (n, list(range(1 + k))) if k else None
+            if n.op in ("ifexp", "phi") and isinstance(n.args[0], vg.S):
+                c = vg.show(n.args[0], 6)
+                if "num_starts" in c or "num_augment" in c or "n_start" in c or "n_aug" in c:
+                    return back(n.args[1], depth + 1)
+                return None
+            if n.op == "sub" and vg.is_const(n.args[1], 0):
+                return back(n.args[0], depth + 1)
+            if n.op == "attr" and n.args[1] == "values":
+                return back(n.args[0], depth + 1)
+            if n.op == "meth" and n.args[1] in ("max", "amax"):
+                r = back(n.args[0], depth + 1)
+                ax = nf.axis_arg(n)
+                if r is None or not (isinstance(ax, vg.S) and ax.op == "const" and isinstance(ax.args[0], int)):
+                    return None
+                base, axes = r
+                d = ax.args[0] if ax.args[0] >= 0 else len(axes) + ax.args[0]
+                if not (0 <= d < len(axes)):
+                    return None
+                return base, axes[:d] + axes[d + 1:]
+            return None
+        r_aug, r_ms = back(vals["max_aug_reward"]), back(vals["max_reward"])
+        ok = r_aug is not None and r_ms is not None and r_aug[0].id == r_ms[0].id and r_aug[1] == [0] and len(r_ms[1]) == 2 and r_ms[1][0] == 0
+        # the axis max_reward removes is the START axis: the position of the multi-start factor in unbatchify's shape tuple
+        start_ok = False
+        if ok:
+            shp = r_ms[0].args[2]
+            removed = ({0, 1, 2} - set(r_ms[1])).pop()
+            fac = vg.show(shp.args[removed - 1], 6)
+            start_ok = "num_starts" in fac or "n_start" in fac
+        ctx.ob("C15.j", f"{cn}.shared_step:best-over-all-rollouts", bool(ok and start_ok), fi.loc,
+               f"max_reward keeps axes {r_ms[1] if r_ms else None} of R = unbatchify(reward, (f1, f2)) (the start axis removed: {start_ok}); max_aug_reward keeps axes {r_aug[1] if r_aug else None} (must be [0]: "
+               "both replica axes reduced by a maximum)", construct=f"{cn}.shared_step:best-of-all-rollouts")
+    # k) select_best over the phases
+    rf = ctx.repo.get_class("rl4co/models/rl/reinforce/reinforce.py", "REINFORCE")
+    fi = rf.methods["shared_step"]
+    ctx.fn(fi)
+    kw = None
+    for c in ast.walk(fi.node):
+        if isinstance(c, ast.Call) and ast.unparse(c.func) == "self.policy":
+            for k in c.keywords:
+                if k.arg == "select_best":
+                    kw = k.value
+    if kw is None:
+        raise AnalysisError("REINFORCE.shared_step: self.policy(..., select_best=...) not found")
+    table = []
+    for ph in ("train", "val", "test"):
+        table.append(_fold(kw, {"phase": ph}))
+    okk = table == [False, True, True]
+    ctx.ob("C15.k", "REINFORCE.shared_step:select-best-in-every-evaluation-phase", okk, fi.loc,
+           f"select_best = {ast.unparse(kw)} -> (train, val, test) = {table}; needs (False, True, True): validation results of a multi-start / multi-sample policy are the best rollout's, as in test",
+           construct="REINFORCE.shared_step:select_best-by-phase")
+    from .C12 import select_best_whenever_expanded
+    n0 = len(ctx.obligations)
+    select_best_whenever_expanded(ctx)
+    for o in ctx.obligations[n0:]:
+        o.rule = "C15.k"
+
+
 def run(ctx: Ctx):
     augment_after_reset(ctx)
     augmented_feature_written_whole(ctx)
+    best_of_all_rollouts(ctx)
     # ---------------- a: dihedral
     fi = ctx.repo.get_function(TR, "dihedral_8_augmentation")
     ctx.fn(fi)
